@@ -207,6 +207,20 @@ def hand_flow():
             Decl(['计'], Num('0')),
             While(Bin('lt', Var('计'), Num('3')), [inc('计'), _show(Var('计')), ExprS(Call('险', [])), _show(Str('后'))]),
             _show(Str('不达'))]))
+    # the position variable is a number like any other — the body may change it in place; the next execution of the loop (next pass
+    # of the enclosing loop, next call of the method, a later loop) counts 1, 2, 3 … again
+    bump = lambda v, m, k: ExprS(MCall(Var(v), [(m, [Num(k)])]))
+    out.append(Program([], [
+        Iter(['外序', '外'], Arr([Num('7'), Num('8'), Num('9')]),
+             [_show(Var('外序'), Var('外')),
+              Iter(['序', '项'], Arr([Num('10'), Num('20'), Num('30')]), [_show(Var('序'), Var('项')), bump('序', '自增', '100'), _show(Var('序'))]),
+              bump('外序', '自减', '1')]),
+        Iter(['序', '项'], Arr([Num('4'), Num('5')]), [_show(Var('序'), Var('项'))])]))
+    out.append(Program([], [
+        BUMP,
+        Func('巡', ['列'], [Iter(['序', '项'], Var('列'), [_show(Var('序'), Var('项')), _show(Call('升', [Var('序'), Num('7')]))]),
+                           Ret(Prop(Var('列'), '长度'))]),
+        _show(Call('巡', [Arr([Num('5'), Num('6')])])), _show(Call('巡', [Arr([Num('7'), Num('8'), Num('9')])]))]))
     return [(p, {}) for p in out]
 
 
@@ -259,11 +273,24 @@ class G:
         self.rng = rng
         self.k = 0
         self.textm = 0.0     # share of leaves that are members of texts: 长度 / 转换数值 (numbers), 匹配… (truth values), the other text methods
+        self.stats = {}      # what the copy generator produced (evidence): kind -> count
         self.bumps = 0.0     # share of number leaves that are `以 ‹literal›（自增/自减：k）` / （升：‹literal›、k） (needs BUMP in the prelude)
+        # flow programs (C02): loop variables / counters changed in place, loops executed repeatedly, methods called several times,
+        # every position displayed on every pass (needs BUMP in the prelude; off = the stream as it was, same PRNG consumption)
+        self.loop_mut = False
+        self.stats = {}      # how often each of the loop_mut constructs was generated
+        # Off: a variable handed to a callee that bumps its input is not read again by the caller in that pass.  On: it is displayed
+        # right after the call — the real code hands the caller's own number to the callee (`（升：序、100）` leaves 序 = 101 in the
+        # caller, the spec semantics binds inputs by value: 1), which no property fixes either way (cf. BUMP above, DESIGN §12.8);
+        # about 40 programs per 1000 then differ from the spec on the unchanged tree.  c02.py: VERIF_C02_CALLEE_BUMP_VISIBLE_IN_CALLER=1
+        self.CALLEE_BUMP_VISIBLE_IN_CALLER = False
 
     def fresh(self):
         self.k += 1
         return self.k
+
+    def stat(self, key):
+        self.stats[key] = self.stats.get(key, 0) + 1
 
     # ---- expressions (C01) -------------------------------------------------------------------------
     def num_leaf(self, env):
@@ -458,6 +485,157 @@ class G:
             return Var('真') if rng.random() < 0.7 else Var('假')
         return self.expr('bool', depth, env, 0.02, marks=False)
 
+    # ---- loop variables changed in place, loops run more than once (C02, switched on by `loop_mut`) ----------------
+    # A number is a mutable value (自增 / 自减 change the receiver where it stands; 转换数值 rewrites a text): whatever a loop hands to
+    # its variables — the position, the key, the item, a 每当 counter computed by `计 + 1` — may be changed by the body, and the NEXT
+    # pass, the next execution of the same loop (next pass of an enclosing loop, next call of the enclosing method) and every other
+    # loop still get 1, 2, 3 … / the keys as inserted / the items as stored.  Every pass displays all its variables.
+    def _note(self, key):
+        self.stats[key] = self.stats.get(key, 0) + 1
+
+    def var_ops(self, names, kt, rec=None, callee=True):
+        """(statements for the middle of a loop body, statements that must come last in the body) changing the loop's own
+        variables in place.  names = loop variables ([item] or [position/key, item]); kt = 'num' (list position), 'str' (key),
+        'numkey' (key that is a numeral text).  Directly: the variable afterwards holds the new value (displayed).  Through a callee
+        that bumps its input (升): only the callee's result is displayed and the variable is not read again in this pass — what such
+        a change does to the CALLER's variable is not fixed by any property (CALLEE_BUMP_VISIBLE_IN_CALLER lifts that restriction)."""
+        rng = self.rng
+        idx = names[0] if len(names) == 2 else None
+        item = names[-1] if names else None
+        cands = []
+        if idx and kt == 'num':
+            cands += ['idx', 'idx', 'idx', 'idx', 'idx-assign', 'idx-copy'] + (['idx-callee', 'idx-callee'] if callee else [])
+            if rec:
+                cands += ['capture', 'capture']
+        if idx and kt == 'numkey':
+            cands += ['key-conv', 'key-conv', 'key-conv']
+        if item:
+            cands += ['item', 'item'] + (['item-callee'] if callee else [])
+        mid, tail = [], []
+        if not cands:
+            return mid, tail
+        for op in [rng.choice(cands) for _ in range(rng.choice([1, 1, 2, 3]))]:
+            step = Num(rng.choice(['1', '1', '2', '3', '100', '1000', '0.5', '0']))
+            m = rng.choice(['自增', '自增', '自减'])
+            self._note('loopvar:' + op)
+            if op == 'idx':
+                mid += [ExprS(MCall(Var(idx), [(m, [step])])), _show(Var(idx))]
+            elif op == 'item':
+                mid += [ExprS(MCall(Var(item), [(m, [step])])), _show(Var(item))]
+            elif op == 'idx-assign':      # not in place: the name is bound to a new number
+                mid += [ExprS(Assign(Var(idx), Bin('+', Var(idx), step))), _show(Var(idx))]
+            elif op == 'idx-copy':        # a copy taken before the change keeps the position
+                c = '位%d' % self.fresh()
+                mid += [Decl([c], Var(idx)), ExprS(MCall(Var(idx), [(m, [step])])), _show(Var(c), Var(idx))]
+            elif op == 'capture':         # the position stored in a list before it is changed
+                mid += [ExprS(MCall(Var(rec), [('后增', [Var(idx)])])), ExprS(MCall(Var(idx), [(m, [step])]))]
+            elif op == 'key-conv':        # 转换数值 rewrites *^ / *10^ of its receiver to e: the key VARIABLE's text, not the dictionary's key
+                mid += [_show(MCall(Var(idx), [('转换数值', [])])), _show(Var(idx))]
+            elif op in ('idx-callee', 'item-callee'):
+                v = idx if op == 'idx-callee' else item
+                if self.CALLEE_BUMP_VISIBLE_IN_CALLER:
+                    mid += [_show(Call('升', [Var(v), step])), _show(Var(v))]
+                elif not tail:
+                    tail = [_show(Call('升', [Var(v), step]))]
+        return mid, tail
+
+    def mut_iter(self, names, coll, kt, env, depth, in_func, rec=None, inner=None):
+        """遍历 whose every pass displays its variables, changes some of them in place and (inner) runs further statements"""
+        rng = self.rng
+        env2 = dict(env)
+        if len(names) == 2:
+            env2[names[0]] = 'num' if kt == 'num' else 'str'
+            env2[names[1]] = 'num'
+        elif len(names) == 1:
+            env2[names[0]] = 'num'
+        body = [_show(*[Var(n) for n in names])] if names else [_show(Num(str(self.fresh())))]
+        mid, tail = self.var_ops(names, kt, rec)
+        if inner and rng.random() < 0.5:
+            body += mid
+            mid = []
+        if rng.random() < 0.4:
+            body += self.stmts(rng.randint(1, 2), env2, depth - 1, True, in_func)
+        body += (inner or []) + mid
+        if not tail and rng.random() < 0.3:
+            body += self.stmts(1, env2, depth - 1, True, in_func)
+        return Iter(names, coll, body + tail)
+
+    def mut_collection(self):
+        rng = self.rng
+        k = rng.random()
+        if k < 0.6:
+            return Arr([Num(rng.choice(SMALL_INTS)) for _ in range(rng.randint(1, 5))]), 'num'
+        if k < 0.8:
+            return Dict([(Var(x), Num(rng.choice(SMALL_INTS))) for x in rng.sample(KEYS, rng.randint(1, 3))]), 'str'
+        ks = rng.sample(['1*^2', '2*10^1', '3', '1.5*^1', '-4*^0'], rng.randint(1, 3))
+        return Dict([(Str(x), Num(rng.choice(SMALL_INTS))) for x in ks]), 'numkey'
+
+    def mut_names(self, kt):
+        two = kt != 'num' or self.rng.random() < 0.85
+        return [('序%d' if kt == 'num' else '键%d') % self.fresh(), '项%d' % self.fresh()] if two else ['项%d' % self.fresh()]
+
+    def mut_loop(self, out, env, depth, in_func, src=None, kt=None):
+        """a loop that changes its variables in place and is executed again: the same statement twice, a second loop over the same
+        collection, inside an enclosing 遍历 / 每当 of 2–3 passes (whose own variables are changed too), or once (then the enclosing
+        loops / the calls of the enclosing method repeat it)"""
+        rng = self.rng
+        if src is None:
+            coll, kt = self.mut_collection()
+            if rng.random() < 0.5:
+                v = '列%d' % self.fresh()
+                out.append(Decl([v], coll))
+                src = Var(v)
+            else:
+                src = coll
+        rec = None
+        if kt == 'num' and rng.random() < 0.3:
+            rec = '录%d' % self.fresh()
+            out.append(Decl([rec], Arr([])))
+        loop = lambda: self.mut_iter(self.mut_names(kt), src, kt, env, depth - 1, in_func, rec)
+        rep = rng.choice(['seq', 'seq', 'same', 'outer-iter', 'outer-iter', 'outer-while', 'once'])
+        self._note('mutloop:' + rep)
+        self._note('mutloop-over:' + {'num': 'list', 'str': 'dict', 'numkey': 'dict-numeral-keys'}[kt])
+        if rep == 'seq':
+            out.append(loop())
+            if rng.random() < 0.3:
+                out += self.stmts(1, env, depth - 1, False, in_func)
+            out.append(loop())
+        elif rep == 'same':
+            one = loop()
+            out += [one, one]
+        elif rep == 'outer-iter':
+            ocoll = Arr([Num(rng.choice(SMALL_INTS)) for _ in range(rng.randint(2, 3))])
+            onames = [[], ['外%d' % self.fresh()], ['外序%d' % self.fresh(), '外%d' % self.fresh()]][rng.choice([0, 1, 2, 2])]
+            out.append(self.mut_iter(onames, ocoll, 'num', env, depth - 1, in_func, None, inner=[loop()]))
+        elif rep == 'outer-while':
+            c = '计%d' % self.fresh()
+            out.append(Decl([c], Num('0')))
+            body = [ExprS(Assign(Var(c), Bin('+', Var(c), Num('1')))), _show(Var(c)), loop()]
+            if rng.random() < 0.4:
+                # the counter (a number computed by 计 + 1) changed in place: the loop just ends sooner
+                self._note('counter:bumped')
+                body += [ExprS(MCall(Var(c), [('自增', [Num(rng.choice(['0', '1', '100']))])])), _show(Var(c))]
+            out.append(While(Bin('lt', Var(c), Num(rng.choice(['2', '3']))), body))
+        else:
+            out.append(loop())
+        if rec:
+            out.append(_show(Var(rec)))
+
+    def long_list_loops(self, out):
+        """positions beyond any plausible table of prepared numbers: a list of some hundred items traversed twice, every position
+        displayed, the first traversal changing its position variable in place"""
+        rng = self.rng
+        n = rng.choice([130, 257, 260, 300, 300, 520])
+        self._note('mutloop:long-list')
+        lst = '长%d' % self.fresh()
+        out.append(Decl([lst], Arr([Num(rng.choice(SMALL_INTS)) for _ in range(n)])))
+        for k in range(2):
+            i, t = '序%d' % self.fresh(), '项%d' % self.fresh()
+            body = [_show(Var(i), Var(t))]
+            if k == 0 or rng.random() < 0.5:
+                body += [ExprS(MCall(Var(i), [(rng.choice(['自增', '自减']), [Num(rng.choice(['1', '7', '1000']))])])), _show(Var(i))]
+            out.append(Iter([i, t], Var(lst), body))
+
     def while_loop(self, out, env, depth, in_func):
         """每当 with a counter incremented first (so every loop terminates).  Three kinds of condition:
         pure and total (计 < K); with an observable effect (（记：n、计 < K） displays n at every evaluation); partial — it can be
@@ -500,6 +678,12 @@ class G:
                 inner.append(If(last, [Ret(self.expr(rng.choice(['num', 'bool']), 1, env2, 0.0, marks=False))]))
             elif leave == 'brk':
                 inner.append(If(last, [Break()]))
+        if self.loop_mut and rng.random() < 0.08:
+            # the counter (the number `计 + 1` computed) is changed in place somewhere in the pass: it then holds the sum, the loop
+            # ends sooner; later counters and positions that reach the same value are not affected
+            self._note('counter:bumped')
+            pos = rng.randint(0, len(inner))
+            inner[pos:pos] = [_show(Var(c)), ExprS(MCall(Var(c), [('自增', [Num(rng.choice(['0', '1', '1', '2', '100']))])])), _show(Var(c))]
         body = [ExprS(Assign(Var(c), Bin('+', Var(c), Num('1'))))] + inner
         out.append(While(cond, body))
 
@@ -509,7 +693,9 @@ class G:
         env = dict(env)
         for _ in range(n):
             r = rng.random()
-            if r < 0.28 or depth <= 0:
+            if self.loop_mut and depth > 0 and rng.random() < 0.012:
+                self.mut_loop(out, env, depth, in_func)
+            elif r < 0.28 or depth <= 0:
                 out.append(ExprS(Call('显示', [Num(str(self.fresh()))])))
             elif r < 0.42:
                 then = self.stmts(rng.randint(1, 3), env, depth - 1, in_loop, in_func)
@@ -551,6 +737,13 @@ class G:
                     out.append(ExprS(Call('显示', [Var(outer)])))
                 else:
                     out.append(Iter(names, coll, body))
+                if self.loop_mut and names and rng.random() < 0.1:
+                    # the ordinary loops too: their variables changed in place somewhere in the pass
+                    it = [x for x in out if isinstance(x, Iter)][-1]
+                    kt2 = 'str' if isinstance(it.e, Dict) else 'num' if isinstance(it.e, Arr) else kt
+                    mid, _ = self.var_ops(names, kt2, callee=False)
+                    pos = rng.randint(len(names), len(body))
+                    body[pos:pos] = mid
             elif r < 0.76 and in_loop:
                 out.append(rng.choice([Break(), Continue()]))
             elif r < 0.84:
@@ -575,7 +768,7 @@ class G:
         self.marked_conds = True
         self.flow_throws = rng.random() < 0.5
         self.callables = []
-        body = [MARK]
+        body = [MARK] + ([BUMP] if self.loop_mut else [])
         nf = rng.choice([0, 0, 1, 2])
         fnames = []
         for i in range(nf):
@@ -589,10 +782,35 @@ class G:
                 body.append(Func(fn, [], self.stmts(rng.randint(2, 5), {}, depth, False, True)))
             fnames.append(fn)
             self.callables = list(fnames)
+        walkers = []
+        if self.loop_mut and rng.random() < 0.08:
+            # a method that traverses the collection it is given, changing the loop's variables in place; it is called two or three
+            # times (with collections of different sizes): every call sees positions 1, 2, 3 … again
+            fn = '巡%d' % self.fresh()
+            self._note('mutloop:method-called-again')
+            kt = rng.choice(['num', 'num', 'num', 'str'])
+            fb = []
+            if rng.random() < 0.3:
+                fb += self.stmts(1, {}, depth - 1, False, True)
+            self.mut_loop(fb, {}, depth, True, src=Var('列'), kt=kt)
+            if rng.random() < 0.5:
+                fb.append(Ret(Prop(Var('列'), '长度')))
+            body.append(Func(fn, ['列'], fb))
+            walkers = [(fn, kt) for _ in range(rng.choice([2, 2, 3]))]
         main = self.stmts(rng.randint(2, 6), {}, depth, False, False)
         for fn in fnames:
-            pos = rng.randint(0, len(main))
-            main.insert(pos, ExprS(Call('显示', [Call(fn, [])])))
+            # (loop_mut: a method is called up to three times — a loop inside it runs again from position 1)
+            for _ in range(rng.choice([1, 1, 2, 3]) if self.loop_mut else 1):
+                pos = rng.randint(0, len(main))
+                main.insert(pos, ExprS(Call('显示', [Call(fn, [])])))
+        for fn, kt in walkers:
+            if kt == 'num':
+                arg = Arr([Num(rng.choice(SMALL_INTS)) for _ in range(rng.randint(1, 5))])
+            else:
+                arg = Dict([(Var(x), Num(rng.choice(SMALL_INTS))) for x in rng.sample(KEYS, rng.randint(1, 3))])
+            main.insert(rng.randint(0, len(main)), ExprS(Call('显示', [Call(fn, [arg])])))
+        if self.loop_mut and rng.random() < 0.02:
+            self.long_list_loops(main)
         self.marked_conds = self.flow_throws = False
         self.callables = []
         return Program([], body + main), {}
@@ -609,13 +827,44 @@ class G:
         return Dict([(Var(k), self.value_expr(depth - 1)) for k in ks])
 
     def copy_program(self, steps):
+        """copy / alias histories.  Holders: variables, items of lists / dictionaries at any depth, the 表 / 物 properties of
+        objects.  Copy forms: 令, =, multi-name 令, element / key / property assignment, an argument stored by 后增 前增 新增 写入,
+        loop variables, literals evaluated repeatedly, defaults of a type handed to each new object; the source of a copy is a
+        whole variable or a part of one (甲#1, 甲#“a”, 物之表).  Mutations: element and key assignment, 后增 前增 新增 (first /
+        inside / last / past the end / counted from the end) 左移 右移, 移除 (first / middle / last / absent key), 写入 (new /
+        present / formerly removed key), 自增 自减.  After every step every holder is displayed, and some holder is looked at
+        through an order-dependent view (所有索引 所有值 长度, 遍历 with one / two variables, 首项 末项 逆序); at the end every
+        dictionary of every holder is."""
         rng = self.rng
-        body = [Class('盒', [('物', Arr([Num('1')])), ('名', Str('甲'))],
-                      [Func('改名', ['新名'], [ExprS(Assign(This('名'), Var('新名')))]),
-                       Func('取名', [], [Ret(This('名'))])]),
-                BUMP, MAKE_NUM, MAKE_LIST]
+        import copy as _copy
+        # a method whose dictionary literal is evaluated once per call: it takes a copy, then removes a key from the original
+        mk = rng.choice(['a', 'a', 'b', 'b', 'c', '无'])
+        mwho = rng.choice(['内', '内', '副'])
+        make_dict = Func('造表', [], [Decl(['内'], Dict([(Var('a'), Num('0')), (Var('b'), Arr([Num('5')])), (Var('c'), Num('2'))])),
+                                      Decl(['副'], Var('内')),
+                                      ExprS(MCall(Var(mwho), [('移除', [Str(mk)])])),
+                                      Ret(Arr([Var('副'), Var('内')]))])
+        box = Class('盒', [('物', Arr([Num('1')])), ('名', Str('甲')),
+                          ('表', Dict([(Var('a'), Num('1')), (Var('b'), Arr([Num('5')])), (Var('c'), Num('3'))]))],
+                    [Func('改名', ['新名'], [ExprS(Assign(This('名'), Var('新名')))]),
+                     Func('取名', [], [Ret(This('名'))])])
+        body = [box, BUMP, MAKE_NUM, MAKE_LIST]
+        # declared only by the programs that call them
+        extra = {'除键': Func('除键', ['键'], [ExprS(MCall(This('表'), [('移除', [Var('键')])]))]),
+                 '存表': Func('存表', ['新表'], [ExprS(Assign(This('表'), Var('新表')))])}
+
+        def need(f):
+            if f == '造表':
+                if make_dict not in body:
+                    body.insert(4, make_dict)
+            elif extra[f] not in box.methods:
+                box.methods.append(extra[f])
         shapes = {}   # name -> python shape for choosing valid paths: list/dict ('L'/'D' + items), number 'N', other scalar 'S', object 'O'
         names = []
+        objid = {}    # name of an object variable -> which object it names (objects are shared by every name they were given to)
+        objtab = {}   # object -> shape of its 表 property
+        removed = []  # keys removed so far (candidates for being written back: they must come back at the END of the order)
+        dead = [False]
 
         def shape_of(e):
             if isinstance(e, Arr):
@@ -624,17 +873,45 @@ class G:
                 return ['D'] + [(k.name, shape_of(v)) for k, v in e.kvs]
             return 'N' if isinstance(e, Num) else 'S'
 
+        def size(sh):
+            if isinstance(sh, list):
+                return 1 + sum(size(x[1] if isinstance(x, tuple) else x) for x in sh[1:])
+            return 1
+
         def bump(target):
             # numbers are changed in place by 自增 / 自减: one more mutator, applied to a variable, an item or a loop variable
             return ExprS(MCall(target, [(rng.choice(['自增', '自减']), [Num(rng.choice(['1', '2', '5', '100']))])]))
 
         def show_all():
-            return [ExprS(Call('显示', [Var(n) if shapes[n] != 'O' else Prop(Var(n), '名') for n in names] or [Num('0')]))]
+            xs, seen = [], set()
+            for n in names:
+                if shapes[n] == 'O':
+                    xs.append(Prop(Var(n), '名'))
+                    if objid[n] not in seen:          # (one look at each object's 表 is enough: its names share it)
+                        seen.add(objid[n])
+                        xs.append(Prop(Var(n), '表'))
+                else:
+                    xs.append(Var(n))
+            return [ExprS(Call('显示', xs or [Num('0')]))]
 
         def new_name():
             n = '量%d' % self.fresh()
             names.append(n)
             return n
+
+        def new_object(n):
+            self.stat('object-created')
+            shapes[n] = 'O'
+            objid[n] = self.fresh()
+            objtab[objid[n]] = ['D', ('a', 'N'), ('b', ['L', 'N']), ('c', 'N')]
+
+        def bind(dst, sh, src=None):
+            """dst now holds a copy of a value of shape sh (an object: the very object src names)"""
+            shapes[dst] = _copy.deepcopy(sh)
+            if sh == 'O':
+                objid[dst] = objid[src]
+            else:
+                objid.pop(dst, None)
 
         def path_into(n, want_container):
             """random access path into variable n; returns (expr, shape)"""
@@ -650,21 +927,185 @@ class G:
                     break
             return e, sh
 
+        def containers(n, kind=None):
+            """every list / dictionary reachable from variable n (through items, keys and an object's 表): (expr, shape)"""
+            out = []
+
+            def walk(e, sh, d):
+                if not isinstance(sh, list):
+                    return
+                if kind is None or sh[0] == kind:
+                    out.append((e, sh))
+                if d >= 3:
+                    return
+                for i, x in enumerate(sh[1:], 1):
+                    if sh[0] == 'L':
+                        walk(Index(e, Num(str(i))), x, d + 1)
+                    else:
+                        walk(Index(e, Str(x[0])), x[1], d + 1)
+            if shapes[n] == 'O':
+                walk(Prop(Var(n), '表'), objtab[objid[n]], 1)
+            else:
+                walk(Var(n), shapes[n], 0)
+            return out
+
+        def source_of(src):
+            """what a copy is taken from: the variable, or a part of it"""
+            if rng.random() < 0.3:
+                cs = containers(src)
+                if cs:
+                    e, sh = rng.choice(cs)
+                    if not isinstance(e, Var):
+                        self.stat('copy-of-a-part')
+                    return e, sh
+            return Var(src), shapes[src]
+
+        def view(e, sh):
+            """an order-dependent look at one list / dictionary"""
+            k = rng.random()
+            self.stat('order-view-of-' + ('dictionary' if sh[0] == 'D' else 'list'))
+            if sh[0] == 'D':
+                if k < 0.45:
+                    return ExprS(Call('显示', [Prop(e, '所有索引'), Prop(e, '所有值')]))
+                if k < 0.6:
+                    return ExprS(Call('显示', [Prop(e, '所有索引'), Prop(e, '长度')]))
+                if k < 0.85:
+                    return Iter(['键', '值'], e, [ExprS(Call('显示', [Var('键'), Var('值')]))])
+                return Iter(['值'], e, [ExprS(Call('显示', [Var('值')]))])
+            if k < 0.4:
+                return ExprS(Call('显示', [Prop(e, '首项'), Prop(e, '末项'), Prop(e, '长度')]))
+            if k < 0.6:
+                return ExprS(Call('显示', [Prop(e, '逆序')]))
+            return Iter(['位', '项'], e, [ExprS(Call('显示', [Var('位'), Var('项')]))])
+
+        def pick_key(sh):
+            """a present key by its place in the order (first / middle / last), now and then an absent one"""
+            ks = [k for k, _ in sh[1:]]
+            if ks and rng.random() < 0.88:
+                c = rng.random()
+                if len(ks) > 2 and 0.4 <= c < 0.75:
+                    self.stat('remove-middle-key')
+                    return rng.choice(ks[1:-1])
+                self.stat('remove-only-key' if len(ks) == 1 else 'remove-first-key' if c < 0.75 else 'remove-last-key')
+                return ks[0] if c < 0.75 else ks[-1]
+            self.stat('remove-absent-key')
+            return rng.choice([k for k in KEYS + ['无'] if k not in ks])
+
+        def set_key(sh, k, vsh):
+            for i in range(1, len(sh)):
+                if sh[i][0] == k:
+                    sh[i] = (k, vsh)       # a present key keeps its place
+                    return
+            sh.append((k, vsh))            # a new (or formerly removed) key goes to the end
+
+        def stored_value(avoid):
+            """what a storing method / assignment is handed: a fresh number, or a variable (what is stored is a copy of its value)"""
+            # (now and then the very variable the receiver sits in: 以甲（后增：甲） stores a copy of 甲 as it was)
+            self_too = rng.random() < 0.2
+            cands = [n for n in names if (n != avoid or self_too) and shapes[n] != 'O' and size(shapes[n]) <= 10]
+            if cands and rng.random() < 0.35:
+                n = rng.choice(cands)
+                self.stat('variable-stored-by-method-or-key-assignment' + ('(into itself)' if n == avoid else ''))
+                return Var(n), _copy.deepcopy(shapes[n])
+            return Num(str(self.fresh())), 'N'
+
+        def dict_mut(root, pe, sh):
+            k = rng.random()
+            ks = [kk for kk, _ in sh[1:]]
+            if k < 0.3:
+                key = rng.choice(KEYS)
+                v, vsh = stored_value(root) if rng.random() < 0.3 else (Num(str(self.fresh())), 'N')
+                body.append(ExprS(Assign(Index(pe, Str(key)), v)))
+                set_key(sh, key, vsh)
+            elif k < 0.72:
+                key = pick_key(sh)
+                call = MCall(pe, [('移除', [Str(key)])])
+                body.append(ExprS(Call('显示', [call])) if rng.random() < 0.3 else ExprS(call))
+                for i in range(1, len(sh)):
+                    if sh[i][0] == key:
+                        sh.pop(i)
+                        removed.append(key)
+                        break
+            else:
+                c = rng.random()
+                back = [x for x in removed if x not in ks]
+                if c < 0.45 and back:
+                    key = rng.choice(back)
+                elif c < 0.65 and ks:
+                    key = rng.choice(ks)
+                else:
+                    key = rng.choice([x for x in KEYS + ['k2', '乙'] if x not in ks])
+                self.stat('write-present-key' if key in ks else 'write-back-removed-key' if key in removed else 'write-new-key')
+                v, vsh = stored_value(root)
+                body.append(ExprS(MCall(pe, [('写入', [Str(key), v])])))
+                set_key(sh, key, vsh)
+
+        def list_mut(root, pe, sh):
+            n = len(sh) - 1
+            m = rng.choice(['后增', '前增', '左移', '右移', '新增', '新增'])
+            if m in ('左移', '右移'):
+                body.append(ExprS(MCall(pe, [(m, [])])))
+                if n > 0:
+                    sh.pop(1 if m == '左移' else n)
+                return
+            v, vsh = stored_value(root)
+            if m == '后增':
+                body.append(ExprS(MCall(pe, [(m, [v])])))
+                sh.append(vsh)
+            elif m == '前增':
+                body.append(ExprS(MCall(pe, [(m, [v])])))
+                sh.insert(1, vsh)
+            else:
+                # the new item gets 0-based position idx: inside, first, last, past the end (= last), counted from the end
+                c = rng.random()
+                if c < 0.45 and n >= 2:
+                    idx = rng.randint(1, n - 1)
+                elif c < 0.55:
+                    idx = 0
+                elif c < 0.65:
+                    idx = n
+                elif c < 0.75:
+                    idx = n + rng.randint(1, 3)
+                elif c < 0.98 and n >= 1:
+                    idx = -rng.randint(1, n)
+                elif c >= 0.98:
+                    idx = -(n + 1 + rng.randint(0, 1))     # before the first item: an index error, the program ends here
+                else:
+                    idx = 0
+                body.append(ExprS(MCall(pe, [(rng.choice(['新增', '新增', '添加']), [v, Num(str(idx))])])))
+                pos = idx if idx >= 0 else n + idx
+                self.stat('insert-' + ('before-first(error)' if pos < 0 else 'first' if pos == 0 else 'inside' if pos < n else 'last'))
+                if pos < 0:
+                    dead[0] = True
+                else:
+                    sh.insert(1 + min(pos, n), vsh)
+
         for _ in range(rng.randint(1, 3)):
             v = self.value_expr(3)
+            if rng.random() < 0.35:
+                # a dictionary with enough keys for first / middle / last to differ, also below a list / a key
+                ks = rng.sample(KEYS, rng.randint(3, 4))
+                v = Dict([(Var(k), self.value_expr(1)) for k in ks])
+                w = rng.random()
+                if w < 0.25:
+                    v = Arr([v, Num(rng.choice(SMALL_INTS))])
+                elif w < 0.4:
+                    v = Dict([(Var('k1'), Num('0')), (Var('内'), v)])
             n = new_name()
             shapes[n] = shape_of(v)
             body.append(Decl([n], v))
         if rng.random() < 0.6:
             n = new_name()
-            shapes[n] = 'O'
+            new_object(n)
             body.append(Decl([n], New('盒', [])))
         for _ in range(steps):
+            if dead[0]:
+                break
             r = rng.random()
             src = rng.choice(names)
+            before = len(body)
             if r < 0.08 and shapes[src] != 'O':
                 # a literal that mentions a variable: 令 y = 【x，1】 / 【k = x】 / y = 【x】 (the embedded value is a copy too)
-                import copy as _copy
                 k = rng.random()
                 if k < 0.4:
                     lit, sh = Arr([Var(src), Num(str(self.fresh()))]), ['L', _copy.deepcopy(shapes[src]), 'N']
@@ -674,86 +1115,121 @@ class G:
                     lit, sh = Arr([Arr([Var(src)])]), ['L', ['L', _copy.deepcopy(shapes[src])]]
                 if rng.random() < 0.7 or len(names) < 2:
                     n = new_name()
-                    shapes[n] = sh
+                    bind(n, sh)
                     body.append(Decl([n], lit, const=rng.random() < 0.2))
                 else:
                     dst = rng.choice([x for x in names if x != src])
-                    shapes[dst] = sh
+                    bind(dst, sh)
                     body.append(ExprS(Assign(Var(dst), lit)))
-            elif r < 0.18:      # 令 y = x
+            elif r < 0.18:      # 令 y = x / 令 y = x#1 / 令 y = 物之表 / one more object of the type
                 n = new_name()
-                import copy as _copy
-                shapes[n] = _copy.deepcopy(shapes[src])
-                body.append(Decl([n], Var(src)))
+                if rng.random() < 0.12:
+                    new_object(n)
+                    body.append(Decl([n], New('盒', [])))
+                else:
+                    e, sh = source_of(src)
+                    bind(n, sh, src)
+                    body.append(Decl([n], e))
             elif r < 0.26:    # 令 y、z = x
                 n1, n2 = new_name(), new_name()
-                import copy as _copy
-                shapes[n1] = _copy.deepcopy(shapes[src])
-                shapes[n2] = _copy.deepcopy(shapes[src])
-                body.append(Decl([n1, n2], Var(src)))
-            elif r < 0.38:    # y = x (existing)
+                e, sh = source_of(src)
+                bind(n1, sh, src)
+                bind(n2, sh, src)
+                body.append(Decl([n1, n2], e))
+            elif r < 0.36:    # y = x (existing)
                 dst = rng.choice(names)
                 if dst != src:
-                    import copy as _copy
-                    shapes[dst] = _copy.deepcopy(shapes[src])
-                    body.append(ExprS(Assign(Var(dst), Var(src))))
-            elif r < 0.50:    # c#i = x   (element assignment stores a copy)
-                dst = rng.choice(names)
-                pe, sh = path_into(dst, True)
-                if isinstance(pe, Index) and shapes[src] != 'O' and dst != src:
-                    body.append(ExprS(Assign(pe, Var(src))))
-                    # shapes of dst change: recompute conservatively by marking the slot scalar-opaque
-                    self._set_shape(shapes, dst, pe, shapes[src])
-            elif r < 0.72:    # mutation through a path
+                    e, sh = source_of(src)
+                    bind(dst, sh, src)
+                    body.append(ExprS(Assign(Var(dst), e)))
+            elif r < 0.46:    # c#i = x   (element assignment stores a copy); 物之表 = x / 以物（存表：x）
                 dst = rng.choice(names)
                 if shapes[dst] == 'O':
+                    if isinstance(shapes[src], list) and shapes[src][0] == 'D':
+                        if rng.random() < 0.6:
+                            body.append(ExprS(Assign(Prop(Var(dst), '表'), Var(src))))
+                        else:
+                            need('存表')
+                            body.append(ExprS(MCall(Var(dst), [('存表', [Var(src)])])))
+                        objtab[objid[dst]][:] = _copy.deepcopy(shapes[src])
+                        self.stat('dictionary-assigned-to-property')
+                else:
+                    pe, sh = path_into(dst, True)
+                    if isinstance(pe, Index) and shapes[src] != 'O' and dst != src:
+                        body.append(ExprS(Assign(pe, Var(src))))
+                        # shapes of dst change: recompute conservatively by marking the slot scalar-opaque
+                        self._set_shape(shapes, dst, pe, shapes[src])
+            elif r < 0.76:    # mutation through a path
+                dst = rng.choice(names)
+                aim = rng.random()
+                if 0.45 <= aim < 0.7:
+                    # go for a list if some variable holds one: insertion at any place, removal at either end
+                    with_l = [n for n in names if containers(n, 'L')]
+                    if with_l:
+                        dst = rng.choice(with_l)
+                        pe, sh = rng.choice(containers(dst, 'L'))
+                        list_mut(dst, pe, sh)
+                        body += show_all()
+                        if not dead[0] and rng.random() < 0.3:
+                            body.append(view(pe, sh))
+                        continue
+                if aim < 0.45:
+                    # go for a dictionary if some variable holds one: removal / writing back / key assignment
+                    with_d = [n for n in names if containers(n, 'D')]
+                    if with_d:
+                        dst = rng.choice(with_d)
+                        pe, sh = rng.choice(containers(dst, 'D'))
+                        if shapes[dst] == 'O' and isinstance(pe, Prop) and rng.random() < 0.4:
+                            key = pick_key(sh)
+                            need('除键')
+                            body.append(ExprS(MCall(Var(dst), [('除键', [Str(key)])])))
+                            for i in range(1, len(sh)):
+                                if sh[i][0] == key:
+                                    sh.pop(i)
+                                    removed.append(key)
+                                    break
+                        else:
+                            dict_mut(dst, pe, sh)
+                        body += show_all()
+                        if rng.random() < 0.5:
+                            body.append(view(pe, sh))
+                        continue
+                if shapes[dst] == 'O':
                     k = rng.random()
-                    if k < 0.5:
+                    if k < 0.3:
                         body.append(ExprS(Assign(Prop(Var(dst), '名'), Str(rng.choice(TEXTS)))))
-                    else:
+                    elif k < 0.6:
                         body.append(ExprS(MCall(Var(dst), [('改名', [Str(rng.choice(TEXTS))])])))
+                    else:
+                        pe, sh = rng.choice(containers(dst))
+                        (dict_mut if sh[0] == 'D' else list_mut)(dst, pe, sh)
                 else:
                     pe, sh = path_into(dst, True)
                     if isinstance(sh, list) and sh[0] == 'L':
-                        m = rng.choice(['后增', '前增', '左移', '右移'])
-                        if m in ('后增', '前增'):
-                            body.append(ExprS(MCall(pe, [(m, [Num(str(self.fresh()))])])))
-                            if m == '后增':
-                                sh.append('N')
-                            else:
-                                sh.insert(1, 'N')
-                        else:
-                            body.append(ExprS(MCall(pe, [(m, [])])))
-                            if len(sh) > 1:
-                                if m == '左移':
-                                    sh.pop(1)
-                                else:
-                                    sh.pop()
+                        list_mut(dst, pe, sh)
                     elif isinstance(sh, list) and sh[0] == 'D':
-                        k = rng.choice(KEYS)
-                        body.append(ExprS(Assign(Index(pe, Str(k)), Num(str(self.fresh())))))
-                        if not any(kk == k for kk, _ in sh[1:]):
-                            sh.append((k, 'N'))
-                        else:
-                            for i in range(1, len(sh)):
-                                if sh[i][0] == k:
-                                    sh[i] = (k, 'N')
+                        dict_mut(dst, pe, sh)
                     elif sh == 'N' and rng.random() < 0.65:
                         # a number held by a variable or stored at any depth of a container: changed in place
                         body.append(bump(pe))
                     elif isinstance(pe, Index):
                         body.append(ExprS(Assign(pe, Num(str(self.fresh())))))
                         self._set_shape(shapes, dst, pe, 'N')
-            elif r < 0.82:    # loop variable copies
-                cands = [n for n in names if isinstance(shapes[n], list) and len(shapes[n]) > 1]
+            elif r < 0.86:    # loop variable copies
+                cands = [(Var(n), shapes[n]) for n in names if isinstance(shapes[n], list) and len(shapes[n]) > 1]
+                if rng.random() < 0.3:
+                    # what is traversed may also sit inside a variable (甲#1, 甲#“a”, 物之表)
+                    cands = [x for n in names for x in containers(n) if len(x[1]) > 1] or cands
                 if cands:
-                    c = rng.choice(cands)
+                    ce, csh = rng.choice(cands)
                     lv = '环%d' % self.fresh()
                     # mutate through the loop variable: the iterated collection must not change
-                    elems = [x if not isinstance(x, tuple) else x[1] for x in shapes[c][1:]]
+                    elems = [x if not isinstance(x, tuple) else x[1] for x in csh[1:]]
                     muts = []
                     if all(isinstance(x, list) and x[0] == 'L' for x in elems):
                         muts.append(ExprS(MCall(Var(lv), [('后增', [Num(str(self.fresh()))])])))
+                        muts.append(ExprS(MCall(Var(lv), [rng.choice([('左移', []), ('前增', [Num(str(self.fresh()))]),
+                                                                      ('新增', [Num(str(self.fresh())), Num('1')])])])))
                         if all(len(x) > 1 and x[1] == 'N' for x in elems):
                             muts.append(bump(Index(Var(lv), Num('1'))))
                         if all(len(x) > 1 and isinstance(x[1], list) and x[1][0] == 'L' and len(x[1]) > 1 and x[1][1] == 'N' for x in elems):
@@ -763,26 +1239,45 @@ class G:
                         common = [k for k in KEYS if all(any(kk == k and vv == 'N' for kk, vv in x[1:]) for x in elems)]
                         if common:
                             muts.append(bump(Index(Var(lv), Str(rng.choice(common)))))
+                        # a key removed from / written back into the loop variable's own dictionary (a key that comes first
+                        # in one of the items at least, when there is one)
+                        self.stat('loop-over-dictionaries')
+                        firsts = [x[1][0] for x in elems if len(x) > 2]
+                        key = rng.choice(firsts) if firsts else rng.choice(KEYS)
+                        muts.append(ExprS(MCall(Var(lv), [('移除', [Str(key)])])))
+                        muts.append(ExprS(MCall(Var(lv), [('移除', [Str(key)])])))      # (twice: it is the likelier choice)
+                        muts.append(ExprS(MCall(Var(lv), [('写入', [Str(rng.choice(KEYS)), Num(str(self.fresh()))])])))
                     elif all(x == 'N' for x in elems):
                         muts.append(bump(Var(lv)))
                     if not muts or rng.random() < 0.15:
                         muts = [ExprS(Assign(Var(lv), Num(str(self.fresh()))))]
                     loopvars = [lv]
-                    if shapes[c][0] == 'L' and rng.random() < 0.3:
+                    if csh[0] == 'L' and rng.random() < 0.3:
                         # two-variable form; the position handed out by the loop is a number like any other
                         iv = '位%d' % self.fresh()
                         loopvars = [iv, lv]
                         muts = [rng.choice(muts), bump(Var(iv))]
                     else:
                         muts = [rng.choice(muts)]
-                    body.append(Iter(loopvars, Var(c), muts + [ExprS(Call('显示', [Var(v) for v in loopvars]))]))
+                    body.append(Iter(loopvars, ce, muts + [ExprS(Call('显示', [Var(v) for v in loopvars]))]))
             else:             # literals evaluated repeatedly (loop body, method called several times) must be fresh each time
                 k = rng.random()
                 lv = '次%d' % self.fresh()
                 passes = Arr([Num(str(i)) for i in range(1, rng.randint(2, 3) + 1)])
                 if k < 0.3:
                     tmp = '新%d' % self.fresh()
-                    lit = rng.choice([Arr([Num('0')]), Arr([Num('0'), Arr([Num('7')])]), Dict([(Var('a'), Num('0'))])])
+                    lit = rng.choice([Arr([Num('0')]), Arr([Num('0'), Arr([Num('7')])]), Dict([(Var('a'), Num('0'))]),
+                                      Dict([(Var('a'), Num('0')), (Var('b'), Arr([Num('7')])), (Var('c'), Var(lv))])])
+                    if isinstance(lit, Dict) and len(lit.kvs) > 1:
+                        # the literal's value is bound, copied, and a key is removed through one of the two names
+                        dup = '副%d' % self.fresh()
+                        self.stat('literal-copied-then-key-removed(loop)')
+                        who = rng.choice([tmp, dup])
+                        body.append(Iter([lv], passes, [Decl([tmp], lit), Decl([dup], Var(tmp)),
+                                                        ExprS(MCall(Var(who), [('移除', [Str(rng.choice(['a', 'b', 'c']))])])),
+                                                        ExprS(Call('显示', [Var(tmp), Var(dup), Prop(Var(dup), '所有索引'), Prop(Var(tmp), '所有值')]))]))
+                        body += show_all()
+                        continue
                     if isinstance(lit, Dict):
                         mut = rng.choice([ExprS(Assign(Index(Var(tmp), Str('b')), Var(lv))), bump(Index(Var(tmp), Str('a')))])
                     else:
@@ -796,9 +1291,25 @@ class G:
                     body.append(Iter([lv], passes, [ExprS(Call('显示', shown))]))
                 else:
                     # the literals of a method body, once per call
-                    f = rng.choice(['造数', '造列'])
+                    f = rng.choice(['造数', '造列', '造表'])
+                    if f == '造表':
+                        self.stat('literal-copied-then-key-removed(method)')
+                        need(f)
                     body.append(ExprS(Call('显示', [Call(f, []) for _ in range(rng.randint(2, 3))])))
+            if len(body) == before:
+                continue            # (a step that found nothing to do)
             body += show_all()
+            if not dead[0] and rng.random() < 0.35:
+                # one holder seen through an order-dependent view
+                cs = [x for n in names for x in containers(n)]
+                if cs:
+                    body.append(view(*rng.choice(cs)))
+        if not dead[0]:
+            # finally: the key order of every dictionary of every holder
+            ds = [x for n in names for x in containers(n, 'D')]
+            rng.shuffle(ds)
+            for e, sh in ds[:4]:
+                body.append(ExprS(Call('显示', [Prop(e, '所有索引'), Prop(e, '所有值')])))
         return Program([], body), {}
 
     def _set_shape(self, shapes, root, pe, newshape):
